@@ -283,7 +283,7 @@ def shadow_runs(ctx):
             t = f.read_text(encoding="utf-8")
         except Exception:
             continue
-        if len(t) <= ctx.budget(1500, 6000):
+        if len(t) <= ctx.budget(1500, 3000):
             cases.append((d, f.name, t))
     cases += [(d, n + "#mut", gen.mutate_sql(rng, t)) for (d, n, t) in cases[: ctx.budget(15, 600)]]
     cases += [("ansi", "gen", gen.sql_file(rng)) for _ in range(ctx.budget(25, 500))]
@@ -291,12 +291,14 @@ def shadow_runs(ctx):
     syst = ["ansi"] + rng.sample([d for d in dialects if d != "ansi"], 1) if ctx.quick() else dialects
     for d in dialects:
         if d in syst or not ctx.quick():
-            cases += [(d, "kw", s_) for s_ in keyword_inputs(rng, d, ctx.budget(10, 300), d in syst)]
+            cases += [(d, "kw", s_) for s_ in keyword_inputs(rng, d, ctx.budget(10, 100), d in syst)]
     import multiprocessing
     jobs = [(d, name, sql, rng.getrandbits(32)) for (d, name, sql) in cases]
-    with multiprocessing.get_context("fork").Pool(14) as pool:
-        results = list(pool.imap_unordered(_shadow_case, jobs, chunksize=2))
+    from vlib.par import robust_map
+    results = robust_map(_shadow_case, jobs, 14, ctx.budget(240, 600))
     for r in results:
+        if "case" not in r:          # timed out (an uncached parse of a large file can take very long) or the worker died
+            ctx.bump("shadow_timeout" if r.get("timeout") else "shadow_worker_died"); continue
         case = r["case"]
         if r.get("raised"):
             ctx.bump("parse_raised"); continue
